@@ -470,3 +470,104 @@ func (l sortedRevNsLister) List(sel labels.Selector) ([]*v1alpha1.ControllerRevi
 	sort.Slice(ret, func(i, j int) bool { return ret[i].Name < ret[j].Name })
 	return ret, err
 }
+
+// refreshInformers brings the caches of a long-lived controller to the current list views by
+// sending the watch events an API server would have sent (ADDED / MODIFIED / DELETED), and
+// waits until every informer shows exactly that content. The ControllerRevision lister, which
+// the harness fills itself, is refilled.
+func (w *cworld) refreshInformers(b *builtPC) error {
+	type inf struct {
+		apiVersion, kind string
+		idx              cache.Indexer
+	}
+	var infs []inf
+	pr := resByResource(b.pc.cc.Spec.ParentResource.APIVersion, b.pc.cc.Spec.ParentResource.Resource)
+	if pr != nil {
+		infs = append(infs, inf{pr.APIVersion(), pr.Kind, b.pc.parentInformer.Informer().GetIndexer()})
+	}
+	for gvr, ci := range b.pc.childInformers {
+		if r := resByResource(gvr.GroupVersion().String(), gvr.Resource); r != nil {
+			infs = append(infs, inf{r.APIVersion(), r.Kind, ci.Informer().GetIndexer()})
+		}
+	}
+	want := map[string]map[string]J{} // apiVersion|kind -> key -> object
+	for _, o := range w.srv.AllLive() {
+		k := fmt.Sprint(o["apiVersion"], "|", o["kind"])
+		if want[k] == nil {
+			want[k] = map[string]J{}
+		}
+		md, _ := o["metadata"].(map[string]interface{})
+		ns, _ := md["namespace"].(string)
+		name, _ := md["name"].(string)
+		key := name
+		if ns != "" {
+			key = ns + "/" + name
+		}
+		want[k][key] = o
+	}
+	for _, in := range infs {
+		target := want[in.apiVersion+"|"+in.kind]
+		for _, key := range in.idx.ListKeys() {
+			if _, ok := target[key]; !ok {
+				if o, exists, _ := in.idx.GetByKey(key); exists {
+					w.srv.Emit("DELETED", runtime.DeepCopyJSON(o.(interface{ UnstructuredContent() map[string]interface{} }).UnstructuredContent()))
+				}
+			}
+		}
+		for key, o := range target {
+			cur, exists, _ := in.idx.GetByKey(key)
+			switch {
+			case !exists:
+				w.srv.Emit("ADDED", o)
+			case !reflect.DeepEqual(vh.Normalize(cur.(interface{ UnstructuredContent() map[string]interface{} }).UnstructuredContent()), vh.Normalize(map[string]interface{}(o))):
+				curUID, _ := cur.(interface{ UnstructuredContent() map[string]interface{} }).UnstructuredContent()["metadata"].(map[string]interface{})["uid"].(string)
+				newUID, _ := o["metadata"].(map[string]interface{})["uid"].(string)
+				if curUID != newUID {
+					// another incarnation under the same name: the old one went away first
+					w.srv.Emit("DELETED", runtime.DeepCopyJSON(cur.(interface{ UnstructuredContent() map[string]interface{} }).UnstructuredContent()))
+					w.srv.Emit("ADDED", o)
+				} else {
+					w.srv.Emit("MODIFIED", o)
+				}
+			}
+		}
+	}
+	deadline := time.Now().Add(5 * time.Second)
+	for {
+		ok := true
+		for _, in := range infs {
+			target := want[in.apiVersion+"|"+in.kind]
+			keys := in.idx.ListKeys()
+			if len(keys) != len(target) {
+				ok = false
+				break
+			}
+			for key, o := range target {
+				cur, exists, _ := in.idx.GetByKey(key)
+				if !exists || !reflect.DeepEqual(vh.Normalize(cur.(interface{ UnstructuredContent() map[string]interface{} }).UnstructuredContent()), vh.Normalize(map[string]interface{}(o))) {
+					ok = false
+					break
+				}
+			}
+		}
+		if ok {
+			break
+		}
+		if time.Now().After(deadline) {
+			return fmt.Errorf("long-lived controller: informers did not catch up with the store")
+		}
+		time.Sleep(500 * time.Microsecond)
+	}
+	// the typed ControllerRevision lister
+	for _, o := range b.revIndexer.List() {
+		b.revIndexer.Delete(o)
+	}
+	for _, o := range w.listRevisions() {
+		cr := &v1alpha1.ControllerRevision{}
+		if err := runtime.DefaultUnstructuredConverter.FromUnstructured(o, cr); err == nil {
+			b.revIndexer.Add(cr)
+		}
+	}
+	b.revSnapshot = b.revDump()
+	return nil
+}
